@@ -582,6 +582,67 @@ def check_fresh(ctx: Check, tree: Tree, reach: dict[str, FuncInfo]) -> None:
         ctx.ok("R-FRESH", "src/ampform", f"{n_calls} calls in the {len(reach)} functions reachable from formulate(): none creates a process-unique value (Dummy, uuid, clock, random, id, object())")
 
 
+LABELLED = ("StateTransition", "FrozenTransition", "Transition", "ReactionInfo", "Particle", "State", "StateWithID")
+
+
+def _qrules_label_fields() -> list[str] | None:
+    """Fields of qrules.particle.Particle that do not take part in ==/hash (read from the installed
+    source, not imported)."""
+    import importlib.util
+    import pathlib
+
+    try:
+        spec = importlib.util.find_spec("qrules")
+        if spec is None or not spec.submodule_search_locations:
+            return None
+        src = pathlib.Path(list(spec.submodule_search_locations)[0]) / "particle" / "__init__.py"
+        mod = ast.parse(src.read_text())
+    except Exception:  # noqa: BLE001
+        return None
+    for node in ast.walk(mod):
+        if isinstance(node, ast.ClassDef) and node.name == "Particle":
+            return [st.target.id for st in node.body if isinstance(st, ast.AnnAssign) and isinstance(st.target, ast.Name) and isinstance(st.value, ast.Call)
+                    and any(k.arg == "eq" and isinstance(k.value, ast.Constant) and k.value.value is False for k in st.value.keywords)]
+    return None
+
+
+def check_cache_keys(ctx: Check, tree: Tree) -> None:
+    """R-CACHEKEY: functools.cache keys by == / hash of the arguments.  qrules particles compare equal
+    when their quantum numbers agree - name, pid and latex do not take part - so transitions / states /
+    reactions that differ only in a label are ONE cache key.  A memoised function of such an argument may
+    therefore only return something that does not carry the labels; returning an object that holds the
+    particles (TwoBodyDecay, StateWithID) hands the first caller's labels to every later caller in the
+    process (parameter names m_{...}, Gamma_{...} of another model)."""
+    labels = _qrules_label_fields()
+    if labels:
+        ctx.info("R-CACHEKEY", "qrules/particle/__init__.py", f"qrules.particle.Particle: fields {labels} are declared eq=False (read from the installed source)")
+    else:
+        ctx.assumptions.append("qrules.particle.Particle compares without name / pid / latex (source not found; taken from the qrules documentation)")
+    holders = set()
+    for q, cls in tree.classes.items():
+        if not q.startswith("ampform"):
+            continue
+        for st in cls.node.body:
+            if isinstance(st, ast.AnnAssign) and any(t in unparse(st.annotation) for t in LABELLED):
+                holders.add(cls.name)
+    memo = memoised_functions(tree)
+    n = 0
+    for f in memo:
+        params = [a for a in [*f.node.args.posonlyargs, *f.node.args.args, *f.node.args.kwonlyargs] if a.annotation is not None]
+        lab = [a.arg for a in params if any(t in unparse(a.annotation).replace("'", "") for t in LABELLED)]
+        if not lab:
+            continue
+        n += 1
+        ret = unparse(f.node.returns).replace("'", "") if f.node.returns is not None else ""
+        ctors = {unparse(r.value.func) for r in walk_function(f.node, nested=False) if isinstance(r, ast.Return) and isinstance(r.value, ast.Call)}
+        carries = [h for h in holders | set(LABELLED) if h in ret or h in ctors or ("cls" in ctors and f.cls is not None and f.cls.name == h)]
+        ctx.verdict(not carries, "R-CACHEKEY", f"{f.qual}::label-carrying-result", tree.loc(f.node),
+                    f"memoised {f.qual}({', '.join(lab)}) returns `{ret or sorted(ctors)}`: nothing that carries particle labels",
+                    None if not carries else f"the result holds {sorted(carries)} (particles with name / latex), but the cache key ignores these labels: a later model with relabelled particles gets the first model's objects")
+    if n == 0:
+        ctx.ok("R-CACHEKEY", "src/ampform", f"none of the {len(memo)} memoised functions takes a transition / state / particle / reaction and returns an object holding particles")
+
+
 def run(ctx: Check, tree: Tree) -> None:
     from .c06_order import check_order
 
@@ -590,6 +651,7 @@ def run(ctx: Check, tree: Tree) -> None:
         "R-EFFECT: formulate resets its scratch state first; every other write reachable from it targets locals, objects under construction, or the scratch state",
         "R-ORDER: no unordered container with hash-seed-sensitive elements reaches an order-preserving sink (tuple/list/loop-with-append/sequence argument of an expression constructor) without sorted()",
         "R-CANON: every mapping field of HelicityModel is converted into a new mapping (sorted where promised)",
+        "R-CACHEKEY: no memoised function keyed by transitions / states / particles (whose equality ignores name, pid, latex) returns an object that carries those labels",
         "R-FRESH: nothing reachable from formulate() creates a process-unique value (sp.Dummy, uuid, clock, random, id(), object())",
         "R-SHARED: no class-level mutable container of the package is mutated through self/cls without being re-bound per instance in the constructor",
     ]
@@ -608,4 +670,5 @@ def run(ctx: Check, tree: Tree) -> None:
     ctx.section(check_order, ctx, tree, reach)
     ctx.section(check_shared_class_state, ctx, tree)
     ctx.section(check_fresh, ctx, tree, reach)
+    ctx.section(check_cache_keys, ctx, tree)
     ctx.section(check_converters, ctx, tree)
